@@ -264,9 +264,9 @@ package age
 
 //@ func ParseX25519Identity(s) (i, err)
 //@   call bech32.Decode#1 requires arg0 == s                                                                            [C09]
-//@   call fmt.Errorf#1 requires arg0 == "malformed secret key: %v" && len(arg1) == 1 && arg1[0] == lasterr("bech32.Decode",1)                     [C18]
-//@   call fmt.Errorf#2 requires arg0 == "malformed secret key: unknown type %q" && len(arg1) == 1 && unboxstr(arg1[0]) == lastret("bech32.Decode",1,0) && lasterr("bech32.Decode",1) == nil   [C18]
-//@   call fmt.Errorf#3 requires arg0 == "malformed secret key: %v" && len(arg1) == 1 && arg1[0] == lasterr("newX25519IdentityFromScalar",1)       [C18]
+//@   call fmt.Errorf#1 requires len(arg1) == 1 && arg1[0] == lasterr("bech32.Decode",1)                     [C18]
+//@   call fmt.Errorf#2 requires len(arg1) == 1 && unboxstr(arg1[0]) == lastret("bech32.Decode",1,0) && lasterr("bech32.Decode",1) == nil   [C18]
+//@   call fmt.Errorf#3 requires len(arg1) == 1 && arg1[0] == lasterr("newX25519IdentityFromScalar",1)       [C18]
 //@   ensures#canon err == nil ==> i != nil && len(i.secretKey) == 32 && hasprefix(s, "AGE-SECRET-KEY-") && at(s, 15) == 49 && (forall j in 0..len(s) :: 33 <= at(s, j) && at(s, j) <= 126)   [C09 C18]
 //@   ensures#nil err != nil ==> i == nil                                                                                [C09 C14 C18]
 //@   fresh i when err == nil
@@ -293,7 +293,7 @@ package age
 //@   loop 1 invariant#count len(ids) == keycount(id(scanner), n)                                                  [C18]
 //@   loop 1 invariant#nonnil forall j in 0..len(ids) :: ids[j] != nil                                            [C18]
 //@   call ParseX25519Identity#0 requires arg0 == scanner.$cur && iskeyline(arg0)                                  [C18]
-//@   call fmt.Errorf#1 requires arg0 == "error at line %d: %v" && unboxint(arg1[0]) == n && n == scanner.$ln      [C18]
+//@   call fmt.Errorf#1 requires len(arg1) == 2 && unboxint(arg1[0]) == n && n == scanner.$ln      [C18]
 //@   ensures#all err == nil ==> len(ids) == keycount(id(scanner), scanner.$ln) && len(ids) >= 1 && (forall j in 0..len(ids) :: ids[j] != nil)   [C18]
 //@   ensures#nil err != nil ==> ids == nil                                                                       [C14 C18]
 
@@ -303,7 +303,7 @@ package age
 //@   loop 1 invariant#count len(recs) == keycount(id(scanner), n)                                                 [C18]
 //@   loop 1 invariant#nonnil forall j in 0..len(recs) :: recs[j] != nil                                          [C18]
 //@   call ParseX25519Recipient#0 requires arg0 == scanner.$cur && iskeyline(arg0)                                 [C18]
-//@   call fmt.Errorf#1 requires arg0 == "malformed recipient at line %d" && len(arg1) == 1 && unboxint(arg1[0]) == n && n == scanner.$ln   [C18]
+//@   call fmt.Errorf#1 requires len(arg1) == 1 && unboxint(arg1[0]) == n && n == scanner.$ln   [C18]
 //@   ensures#all err == nil ==> len(recs) == keycount(id(scanner), scanner.$ln) && len(recs) >= 1 && (forall j in 0..len(recs) :: recs[j] != nil)   [C18]
 //@   ensures#nil err != nil ==> recs == nil                                                                      [C14 C18]
 
